@@ -545,6 +545,11 @@ def check_c04(tier):
     cov = tlc_cov(meta, replayed)
     cov["states"] += meta_chain["distinct"]
     cov["transitions"] += meta_chain["transitions"]
+    if tier == "thorough":
+        # the reverse index mirrors the forward map in EVERY state of every history, not only those within TLC's bounds:
+        # Mirror / DefKeyed are inductive invariants of MirrorInd.tla (Apalache), which History.tla refines (RefinesMirrorInd)
+        import apalache
+        cov["apalache_inductive_invariant"] = apalache.mirror_inductive()
     return V.finish(
         coverage_extra=cov,
         rule="every (layout, order) of spec/Layouts.tla (layout table and override-chain table) replayed; for every definition D: references(D) == "
